@@ -29,6 +29,8 @@ CE = 'csep.core.catalog_evaluations.'
 ROOTS = [CE + 'number_test', CE + 'spatial_test', CE + 'magnitude_test', CE + 'pseudolikelihood_test', CE + 'resampled_magnitude_test',
          CE + 'MLL_magnitude_test', CE + 'calibration_test', 'csep.utils.calc._compute_likelihood', 'csep.utils.stats.cumulative_square_diff',
          'csep.utils.stats.MLL_score']
+# the tests take a CatalogForecast: how it is constructed (which filters each synthetic catalog goes through) is part of what they compute
+EXTRA_FUNCS = ('csep.core.forecasts.CatalogForecast.__init__', 'csep.load_catalog_forecast')
 TECHNIQUE = 'static analysis: CFG dominance/control dependence for the status protocol and guards, normal-form identities for the statistics'
 GQ = 'csep.utils.stats.get_quantiles'
 CL = 'csep.utils.calc._compute_likelihood'
